@@ -22,6 +22,8 @@ use tu_verif::srng;
 const ALPHA: [&str; 4] = ["a", "ä", "e\u{301}", "\u{e0}"];
 /// probe alphabet (DESIGN 6): symbols inside the stated domain whose grapheme clusters merge when a
 /// separating space disappears — regional indicators and conjoining Hangul jamo (L + V)
+/// a letter and the spelling of a special token of the task's tokenizer (plain text for the task)
+const SPECIAL_TEXT: [&str; 2] = ["a", "<pad>"];
 const PROBE: [&str; 5] = ["a", "\u{1F1E9}", "\u{1F1EA}", "\u{1100}", "\u{1161}"];
 const D9: &str = "D9-cluster-sequence-differs";
 /// (insert probability, delete probability) pairs run with the seeds 0..EXTRA_SEEDS
@@ -50,7 +52,8 @@ fn build_text(alpha: &[&str], w: &[usize], gaps: u32) -> String {
 
 fn units(max_w: usize, max_w_probe: usize) -> Vec<Unit> {
     let mut out = vec![];
-    for (probe, alpha, mw) in [(false, &ALPHA[..], max_w), (true, &PROBE[..], max_w_probe)] {
+    // (third family: texts that spell a special token of the task's tokenizer)
+    for (probe, alpha, mw) in [(false, &ALPHA[..], max_w), (true, &PROBE[..], max_w_probe), (false, &SPECIAL_TEXT[..], 2)] {
         for w in sequences(alpha.len(), mw) {
             let ngaps = w.len().saturating_sub(1);
             for gaps in 0..(1u32 << ngaps) {
@@ -209,7 +212,13 @@ fn check(run: &mut Run, sub: &Subject, f: &PreprocessingFn, text: &str, g: bool,
     match catch(|| sub.tasks[g as usize](&item)) {
         Err(p) => run.violation("no-panic", class, case(), format!("train_task(WhitespaceCorrection) panicked on input {input:?}: {p}")),
         Ok(Err(e)) => run.violation("task-labels-recover-target", class, case(), format!("train_task(WhitespaceCorrection) failed on input {input:?}: {}", first_line(&e.to_string()))),
-        Ok(Ok(TrainTaskInput::SequenceClassification { labels, .. })) => {
+        Ok(Ok(TrainTaskInput::SequenceClassification { labels, token_ids, .. })) => {
+            // the labels belong to the characters of the input: the token ids of the (byte) tokenizer
+            // must be the bytes of that input, whatever it spells
+            let inner: Vec<u32> = token_ids.iter().copied().skip(NUM_PREFIX).take(token_ids.len().saturating_sub(NUM_PREFIX + NUM_SUFFIX)).collect();
+            if inner != input.bytes().map(u32::from).collect::<Vec<u32>>() {
+                run.violation("task-token-ids-are-the-input-bytes", class, case(), format!("task token ids {token_ids:?} for input {input:?} ({} bytes)", input.len()));
+            }
             let inner_ok = labels.len() == NUM_PREFIX + nin + NUM_SUFFIX;
             if !inner_ok {
                 run.violation("task-labels-recover-target", class, case(), format!("task gave {} labels for input {input:?}: expected {NUM_PREFIX} + {nin} characters + {NUM_SUFFIX}", labels.len()));
